@@ -201,6 +201,26 @@ class Normaliser:
                 bound_self = f.value
             elif f.value.id in self.module.classes and ('%s.%s' % (f.value.id, f.attr)) in self.module.funcs:
                 target = self.module.funcs['%s.%s' % (f.value.id, f.attr)]
+        recv = None
+        if target is None and isinstance(f, ast.Attribute) and not (isinstance(f.value, ast.Name) and f.value.id in ('self', 'np', 'numpy', 'math', 'nx', 'pd')):
+            # a NEW method (in no inventory) defined by exactly one class of the repository, called on some other object:
+            # there is only one body it can run
+            hits = []
+            established_somewhere = any(q.split('.')[-1] == f.attr for quals in inventory().values() for q in quals)
+            if not established_somewhere and not f.attr.startswith('__'):
+                for rel in inventory():
+                    if not rel.startswith('src/mbi/') or rel.endswith('torch_factor.py') or not self.repo.exists(rel):
+                        continue
+                    try:
+                        mod = self.repo.module(rel)
+                    except Exception:
+                        continue
+                    for q, fi_ in mod.funcs.items():
+                        if fi_.cls is not None and q.split('.')[-1] == f.attr and q.count('.') == 1:
+                            hits.append(fi_)
+            if len(hits) == 1 and not hits[0].is_static() and hits[0].params and hits[0].params[0] == 'self':
+                target = hits[0]
+                recv = f.value
         if target is None:
             return None
         node = target.node if isinstance(target, FuncInfo) else target
@@ -219,6 +239,10 @@ class Normaliser:
         if node.args.vararg or node.args.kwarg or any(isinstance(a, ast.Starred) for a in call.args) or \
                 any(k.arg is None for k in call.keywords):
             return None
+        if recv is not None:
+            # call it as a plain function of (self, ...): the receiver becomes the first argument
+            call.args = [recv] + list(call.args)
+            return node, qual, None, True
         return node, qual, bound_self, (isinstance(target, FuncInfo) and target.is_static())
 
     def fresh(self, base):
